@@ -325,20 +325,37 @@ def child_reader(args):
         sv = spec["save"]
         out["resaved"] = ph.save("gen2.yaml", settings=sv["settings"], compression=sv["compression"])
     pairs = {}
+    raised = {}
     natom = len(ph.supercell)
-    if os.path.exists("pair_FORCE_SETS"):
+
+    def attempt(name, fn):
+        # a parser that raises on a file phonopy's own writer produced is a finding, not a harness failure
+        try:
+            fn()
+        except BaseException as e:  # noqa: BLE001  (parsers also call sys.exit)
+            raised[name] = "%s: %s" % (type(e).__name__, str(e)[:200])
+
+    def p_fs():
         pairs["FORCE_SETS"] = canon_dataset(parse_FORCE_SETS(natom=natom, filename="pair_FORCE_SETS"))
         pairs["FORCE_SETS_text"] = open("pair_FORCE_SETS").read()[:20000]
-    if os.path.exists("pair_FORCE_CONSTANTS"):
+
+    def p_fc():
         pairs["FORCE_CONSTANTS"] = np.array(parse_FORCE_CONSTANTS(filename="pair_FORCE_CONSTANTS", p2s_map=ph.primitive.p2s_map))
-    if os.path.exists("pair_fc.hdf5"):
+
+    def p_h5():
         fc, unit = read_force_constants_hdf5(filename="pair_fc.hdf5", p2s_map=ph.primitive.p2s_map, return_physical_unit=True)
         pairs["hdf5"] = np.array(fc)
         pairs["hdf5_unit"] = unit
-    if os.path.exists("pair_BORN"):
+
+    def p_born():
         n = parse_BORN(ph.primitive, filename="pair_BORN")  # write_BORN has no is_symmetry option: the pair is (write_BORN, parse_BORN with defaults)
         pairs["BORN"] = None if n is None else {"born": np.array(n["born"]), "dielectric": np.array(n["dielectric"])}
+
+    for name, fname, fn in (("FORCE_SETS", "pair_FORCE_SETS", p_fs), ("FORCE_CONSTANTS", "pair_FORCE_CONSTANTS", p_fc), ("hdf5", "pair_fc.hdf5", p_h5), ("BORN", "pair_BORN", p_born)):
+        if os.path.exists(fname):
+            attempt(name, fn)
     out["pairs"] = pairs
+    out["pairs_raised"] = raised
     return out
 
 
@@ -574,6 +591,9 @@ def execute(spec):
                 V("reload-differs", "gen2:" + name + ("|stale-files-present" if stale_present else ""), why=why, stale=stale_present, saved=saved)
         # (e) write/parse pairs
         wp, rp = wout["pairs"], rout["pairs"]
+        for name, why in sorted(rout.get("pairs_raised", {}).items()):
+            V("file-pair-differs", "%s:parser-raises:%s" % (name, why.split(":")[0]), why=why)
+            wp = {k: v for k, v in wp.items() if k != name}
         if "FORCE_SETS" in wp:
             a, b = wp["FORCE_SETS"], rp.get("FORCE_SETS")
             fdec = 10 if a["type"] == 1 else 8
